@@ -3,6 +3,7 @@ of the tree on PYTHONPATH with the real ProtocolHub.
 
 stdin (JSON), all fields optional:
   "messages": [[factory_name, n, seed, target_or_null], ...]   build real hub messages
+  "pbmut":    true                                             protobuf-level value mutations of every kind
   "parse":    [payload_hex, ...]                               standalone hub.parse outcomes
   "cases":    [[chunk_hex, ...], ...]                          scripted read() chunk lists
   "sweep":    {"tokens": [hex,...], "maxlen": n, "minlen": m, "first": [i,...] | null, "second": [i,...] | null}
@@ -53,6 +54,15 @@ _REAL_PARSE = HUB.parse           # bound method of the real ProtocolHub
 PARSE_LOG = {}
 
 
+def msg_id(m):
+    """identity of a delivered message: its serialized bytes (ingest itself never serializes: a
+    wrapper that cannot re-serialize odd field values must not look like an ingest failure)"""
+    try:
+        return bytes(m.serialize())
+    except Exception as e:  # noqa
+        return ("unserializable:%s:%s" % (type(m).__name__, type(e).__name__)).encode()
+
+
 def outcome_of(payload, fn):
     try:
         m = fn(payload)
@@ -60,7 +70,7 @@ def outcome_of(payload, fn):
         return ["raise", type(e).__name__], None, e
     if m is None:
         return ["none"], None, None
-    ser = bytes(m.serialize())
+    ser = msg_id(m)
     return (["same"] if ser == payload else ["msg", ser.hex()]), m, None
 
 
@@ -138,6 +148,132 @@ FACTORIES = {
 
 SENDER = DevInThread(DEV)
 
+# ---------------------------------------------------------------------------
+# Payloads that ARE valid protobuf of a known message kind but carry semantically odd field
+# values: built from the descriptors of whad_pb2.Message (every domain, every message kind),
+# encoded on the wire by hand so that values the Python protobuf API would refuse can be written.
+# ---------------------------------------------------------------------------
+from google.protobuf.descriptor import FieldDescriptor as _FD
+
+_VARINT = {_FD.TYPE_INT64, _FD.TYPE_UINT64, _FD.TYPE_INT32, _FD.TYPE_BOOL, _FD.TYPE_UINT32, _FD.TYPE_ENUM,
+           _FD.TYPE_SINT32, _FD.TYPE_SINT64}
+_FIX64 = {_FD.TYPE_DOUBLE, _FD.TYPE_FIXED64, _FD.TYPE_SFIXED64}
+_FIX32 = {_FD.TYPE_FLOAT, _FD.TYPE_FIXED32, _FD.TYPE_SFIXED32}
+
+
+def _varint(n):
+    n &= (1 << 64) - 1
+    out = bytearray()
+    while True:
+        b = n & 0x7f
+        n >>= 7
+        if n:
+            out.append(b | 0x80)
+        else:
+            out.append(b); return bytes(out)
+
+
+def _key(num, wt):
+    return _varint((num << 3) | wt)
+
+
+def _ld(num, b):
+    return _key(num, 2) + _varint(len(b)) + b
+
+
+def _is_repeated(f):
+    if hasattr(f, "is_repeated"):
+        r = f.is_repeated
+        return r() if callable(r) else bool(r)
+    return f.label == _FD.LABEL_REPEATED
+
+
+def _enc_scalar(f, v):
+    """field f carrying the integer / bytes value v"""
+    if f.type in _VARINT:
+        one = _varint(v)
+        return _ld(f.number, one) if _is_repeated(f) else _key(f.number, 0) + one
+    if f.type in _FIX64:
+        b = (v & ((1 << 64) - 1)).to_bytes(8, "little")
+        return _ld(f.number, b) if _is_repeated(f) else _key(f.number, 1) + b
+    if f.type in _FIX32:
+        b = (v & 0xffffffff).to_bytes(4, "little")
+        return _ld(f.number, b) if _is_repeated(f) else _key(f.number, 5) + b
+    if f.type in (_FD.TYPE_BYTES, _FD.TYPE_STRING, _FD.TYPE_MESSAGE):
+        return _ld(f.number, v if isinstance(v, bytes) else b"")
+    return b""
+
+
+def _baseline(desc, skip=None):
+    """every field of the message set to a small ordinary value (nested messages empty)"""
+    out = b""
+    for f in desc.fields:
+        if skip is not None and f.number == skip:
+            continue
+        if f.containing_oneof is not None and f.containing_oneof.fields[0] is not f:
+            continue                       # one member per oneof
+        out += _enc_scalar(f, b"\x01\x02" if f.type in (_FD.TYPE_BYTES, _FD.TYPE_STRING) else
+                           (b"" if f.type == _FD.TYPE_MESSAGE else 1))
+    return out
+
+
+def _field_mutations(f):
+    """[(tag, encoded field)] odd values for one field"""
+    res = []
+    if f.type == _FD.TYPE_ENUM:
+        mx = max(v.number for v in f.enum_type.values)
+        for tag, v in (("enum_max+1", mx + 1), ("enum_127", 127), ("enum_int32max", 0x7fffffff), ("enum_-1", -1)):
+            res.append((tag, _enc_scalar(f, v)))
+    elif f.type in _VARINT or f.type in _FIX64 or f.type in _FIX32:
+        for tag, v in (("int_2^64-1", (1 << 64) - 1), ("int_2^31", 1 << 31), ("int_2^32", 1 << 32)):
+            res.append((tag, _enc_scalar(f, v)))
+    elif f.type in (_FD.TYPE_BYTES, _FD.TYPE_STRING):
+        for tag, v in (("bytes_empty", b""), ("bytes_300", bytes([0xAC, 0xBE, 1]) * 100), ("bytes_3000", bytes(range(250)) * 12)):
+            res.append((tag, _enc_scalar(f, v)))
+    elif f.type == _FD.TYPE_MESSAGE:
+        res.append(("submsg_empty", _ld(f.number, b"")))
+        res.append(("submsg_unknown_field_only", _ld(f.number, _key(1000, 0) + b"\x01")))
+        for g in f.message_type.fields:    # one level down (e.g. addresses, ranges)
+            for tag, enc in _field_mutations(g) if g.type != _FD.TYPE_MESSAGE else []:
+                res.append(("sub." + g.name + "." + tag, _ld(f.number, enc)))
+    return res
+
+
+def pb_mutations():
+    """-> [{"payload": hex, "desc": str, "cls": enum|kind|value|unknown}] for every domain and kind"""
+    from whad.protocol.whad_pb2 import Message
+    out = []
+    def add(cls, desc, dom, inner):
+        out.append({"cls": cls, "desc": desc, "payload": _ld(dom.number, inner).hex()})
+    top = Message.DESCRIPTOR
+    for dom in top.fields:
+        if dom.type != _FD.TYPE_MESSAGE:
+            continue
+        dd = dom.message_type
+        add("kind", dom.name + ":domain_empty", dom, b"")
+        add("unknown", dom.name + ":unknown_kind_number", dom, _ld(1999, b""))
+        add("unknown", dom.name + ":unknown_varint_field_only", dom, _key(1998, 0) + b"\x05")
+        for k in dd.fields:
+            name = dom.name + "." + k.name
+            if k.type != _FD.TYPE_MESSAGE:
+                for tag, enc in _field_mutations(k):
+                    add("enum" if tag.startswith("enum") else "value", name + ":" + tag, dom, enc)
+                continue
+            kd = k.message_type
+            add("kind", name + ":empty", dom, _ld(k.number, b""))
+            add("kind", name + ":baseline", dom, _ld(k.number, _baseline(kd)))
+            add("unknown", name + ":unknown_field_added", dom, _ld(k.number, _baseline(kd) + _key(1000, 0) + b"\x07" + _ld(1001, b"xy")))
+            add("unknown", name + ":two_kinds_in_oneof", dom, _ld(k.number, _baseline(kd)) + _ld(dd.fields[0].number, b"")
+                if dd.fields[0].type == _FD.TYPE_MESSAGE else _ld(k.number, b"") + _ld(k.number, b""))
+            for f in kd.fields:
+                for tag, enc in _field_mutations(f):
+                    cls = "enum" if "enum_" in tag else "value"
+                    add(cls, "%s.%s:%s:alone" % (name, f.name, tag), dom, _ld(k.number, enc))
+                    add(cls, "%s.%s:%s:populated" % (name, f.name, tag), dom, _ld(k.number, _baseline(kd, skip=f.number) + enc))
+    out.append({"cls": "unknown", "desc": "top:unknown_domain_number", "payload": _ld(15, b"\x08\x01").hex()})
+    out.append({"cls": "unknown", "desc": "top:two_domains", "payload": (_ld(1, b"") + _ld(2, b"")).hex()})
+    return out
+
 
 def build_message(name, n, seed, target):
     f = FACTORIES[name]
@@ -171,7 +307,7 @@ def run_case(chunks):
             HANGS[0] += 1
     finally:
         signal.alarm(0)
-    out = [bytes(m.serialize()).hex() for m in DEV.got]
+    out = [msg_id(m).hex() for m in DEV.got]
     return {"out": out, "exc": exc, "table": [[k.hex(), v] for k, v in PARSE_LOG.items()]}
 
 
@@ -227,7 +363,7 @@ def run_sweep(spec):
                 finally:
                     signal.alarm(0)
                 runs += 1
-                res = ([bytes(m.serialize()).hex() for m in DEV.got], exc)
+                res = ([msg_id(m).hex() for m in DEV.got], exc)
                 table.update(PARSE_LOG)
                 if ref is None:
                     ref = res
@@ -254,6 +390,8 @@ def main():
             except Exception as e:  # noqa
                 out.append({"exc": type(e).__name__, "name": name})
         res["messages"] = out
+    if req.get("pbmut"):
+        res["pbmut"] = pb_mutations()
     if "parse" in req:
         res["parse"] = [outcome_of(bytes.fromhex(h), _REAL_PARSE)[0] for h in req["parse"]]
     if "cases" in req:
